@@ -12,6 +12,7 @@ class Registry:
         self.contracts, self.models, self.opq_models = {}, {}, {}
         self.property_extras, self.explanations = {}, {}
         self.trusted, self.assume = {}, {}
+        self.spec_ufs = {}
         self._spec = None
 
     def spec_funcs(self, src=None):
@@ -49,6 +50,7 @@ def load():
             r.contracts[k] = c
         r.models.update(getattr(mod, 'MODELS', {}))
         r.opq_models.update(getattr(mod, 'OPQ_MODELS', {}))
+        r.spec_ufs.update(getattr(mod, 'SPEC_UFS', {}))
         r.property_extras.update(getattr(mod, 'EXTRAS', {}))
         r.explanations.update(getattr(mod, 'EXPLANATIONS', {}))
         for k, v in getattr(mod, 'TRUSTED', {}).items():
